@@ -146,14 +146,19 @@ def gen_program(rng, profile):
         if faulty and rng.random() < (0.35 if base != 'c14' else 0.1):
             t['life'] = 'early'
             t['early_after'] = _w(rng, [(0.0, 3), (Q / 2, 3), (Q, 2), (0.5, 2), (1.0, 1)])
+            if base in ('c05', 'c06') and rng.random() < 0.3:
+                # run_until_complete returns with calls pending, the thread does something else for a while,
+                # then runs the same loop again until everything pending has finished
+                t['end'] = 'resume'
+                t['resume_after'] = _w(rng, [(0.0, 2), (Q, 3), (1.0, 2), (5.0, 1)])
         if faulty and base in ('c05', 'c06') and rng.random() < 0.1:
             t['stop_at'] = _w(rng, [(0.0, 1), (Q / 2, 3), (Q, 2), (0.5, 2), (1.5, 1)])
         threads.append(t)
     invs = []
     for _ in range(8):
-        out = 'value'
-        if base != 'c01' or faulty:
-            out = _w(rng, [('value', 7), ('raise', 3)])
+        out = _w(rng, [('value', 8), ('none', 2)]) if base != 'c14' else 'value'
+        if base not in ('c01', 'c14') or (faulty and base == 'c01'):
+            out = _w(rng, [('value', 6), ('none', 1), ('raise', 2), ('raise_sync', 1)])
         invs.append({'dur': _w(rng, durs), 'out': out})
     faults = []
     if faulty and base == 'c14':
@@ -242,7 +247,30 @@ class CacheWorld:
         raise ValueError(kind)
 
     # --------------------------------------------------- wrapped function
-    async def func(self, *args, **kwargs):
+    def func(self, *args, **kwargs):
+        """The wrapped callable: a plain function that validates and returns an awaitable (a common shape), so
+        that it can also fail synchronously, at call time, before any coroutine exists."""
+        script = self.prog['invs']
+        spec = script[len(self.invs) % len(script)]
+        if spec['out'] == 'raise_sync':
+            sch = self.sch
+            loop = asyncio.get_running_loop()
+            key = self.model_key(args, kwargs)
+            i = len(self.invs)
+            I = Inv(i, key, loop, asyncio.current_task())
+            I.args = (args, kwargs)
+            I.step, I.t = sch.step, sch.clock
+            I.exited = True
+            I.how = 'raise'
+            I.step_exit, I.t_exit = sch.step, sch.clock
+            self.invs.append(I)
+            sch.log('enter', i, key, loop.sim_id)
+            sch.log('exit', i, 'raise_sync')
+            self.count('func.raise_at_call_time')
+            raise HarnessError(i)
+        return self.afunc(*args, **kwargs)
+
+    async def afunc(self, *args, **kwargs):
         sch = self.sch
         loop = asyncio.get_running_loop()
         key = self.model_key(args, kwargs)
@@ -273,7 +301,8 @@ class CacheWorld:
                 await asyncio.sleep(d)
             if spec['out'] == 'raise':
                 raise HarnessError(i)
-            I.value = ('v', key, i)
+            # 'none': a falsy result that cannot carry a tag (None is a perfectly good value to cache)
+            I.value = None if spec['out'] == 'none' else ('v', key, i)
             I.how = 'return'
             if key not in self.first_success:
                 self.first_success[key] = I
@@ -474,6 +503,28 @@ class CacheWorld:
                     W.stopped_early = True
                 W.returned_at = sch.clock
                 sch.yield_point()
+                if spec['end'] == 'resume' and not W.stopped_early:
+                    if spec.get('resume_after'):
+                        sch.sleep(spec['resume_after'])
+                    sch.log('resume', ti)
+                    self.count('loop.resumed_with_calls_pending')
+                    pending = [C.task for C in self.callers.values() if C.ti == ti and C.task is not None and not C.task.done()]
+
+                    async def drain():
+                        await asyncio.gather(*pending, return_exceptions=True)
+                    try:
+                        loop.run_until_complete(drain())
+                    except RuntimeError as e:
+                        if 'Event loop stopped before Future completed' not in str(e):
+                            raise
+                    W.shutting_down = True
+                    try:
+                        asyncio.runners._cancel_all_tasks(loop)
+                    except RuntimeError as e:
+                        if 'Event loop stopped before Future completed' not in str(e):
+                            raise
+                        self.count('stop.interrupted_shutdown')
+                    loop.close()
                 if spec['end'] == 'close':
                     sch.log('close', ti)
                     loop.close()
@@ -520,7 +571,9 @@ class CacheWorld:
             if not L.is_running() or L.run_epoch != C.epoch:
                 continue
             key = C.key
-            if any(self.is_live(J) for J in self.invs if J.key == key):
+            # for promptness an invocation is "in progress" whenever it has not exited and its loop is running, also after
+            # the loop was stopped and run again (C01's stricter "counts as ended once its loop stops" is for overlap only)
+            if any((not J.exited) and J.loop.is_running() for J in self.invs if J.key == key):
                 continue
             excused = False
             for J in self.invs:
@@ -530,6 +583,11 @@ class CacheWorld:
                 # time a while this caller was already waiting: it may rely on the safety net
                 a = J.loop.epoch_end.get(J.epoch)
                 if a is not None and a >= C.t_call and new <= a + SAFETY:
+                    if J.exited and J.loop.run_epoch != J.epoch and J.t_exit is not None and J.t_exit >= a \
+                            and J.how in ('return', 'raise') and J.step_exit > J.loop.epoch_end_step.get(J.epoch, 0):
+                        # the loop was run again and the computation ended there: its waiters are owed a wake-up,
+                        # the safety net is no excuse any more
+                        continue
                     excused = True
                     break
             if excused:
@@ -581,6 +639,11 @@ class CacheWorld:
             if not o or o[0] != 'value':
                 continue
             v = o[1]
+            if v is None:
+                if not any(J.value is None for J in succ.get(C.key, ())):
+                    self.viol('C06', 'cache.value_not_from_success', 'value not produced by a successful invocation',
+                              f'caller {C.ti}.{C.ci} key {C.key} got None but no successful invocation of its key returned None')
+                continue
             ok = isinstance(v, tuple) and len(v) == 3 and v[0] == 'v'
             if not ok or v[1] != C.key:
                 self.viol('C14', 'cache.foreign_value', 'caller received a value computed for another key',
@@ -632,6 +695,8 @@ class CacheWorld:
             except Exception:
                 items = []
             for k, v in items:
+                if v is None and any(J.value is None and J.how == 'return' for J in self.invs):
+                    continue
                 if not (isinstance(v, tuple) and len(v) == 3 and v[0] == 'v'
                         and any(J.value == v and J.how == 'return' for J in self.invs)):
                     self.viol('C06', 'cache.cached_nonresult', 'cache holds something no successful invocation returned',
